@@ -310,8 +310,19 @@ fn gen_mark_array(r: &mut Rng, marks: &[u16], class_count: u16, wild: bool) -> V
         .collect()
 }
 
+/// the glyphs a mark lookup covers as marks: the GDEF marks, sometimes also glyph 14, which GDEF does
+/// not classify (it keeps its advance: the advance terms of propagate_attachment_offsets matter)
+fn mark_pool(r: &mut Rng) -> Vec<u16> {
+    let mut v = MARKS.to_vec();
+    if r.chance(1, 3) {
+        v.push(14);
+    }
+    v
+}
+
 fn gen_mark_base(r: &mut Rng, wild: bool) -> PosSubtable {
-    let marks = subset(r, MARKS, 3, 4);
+    let pool = mark_pool(r);
+    let marks = subset(r, &pool, 3, 4);
     let pool: Vec<u16> = BASES.iter().chain(LIGS.iter()).chain(OTHERS.iter()).copied().collect();
     let bases = subset(r, &pool, 3, 4);
     let cc = r.range(1, 3) as u16;
@@ -321,7 +332,8 @@ fn gen_mark_base(r: &mut Rng, wild: bool) -> PosSubtable {
 }
 
 fn gen_mark_lig(r: &mut Rng, wild: bool) -> PosSubtable {
-    let marks = subset(r, MARKS, 3, 4);
+    let pool = mark_pool(r);
+    let marks = subset(r, &pool, 3, 4);
     let ligs = subset(r, LIGS, 3, 4);
     let cc = r.range(1, 2) as u16;
     let arr = gen_mark_array(r, &marks, cc, wild);
@@ -387,7 +399,6 @@ fn gen_liga(r: &mut Rng, spec: &FontSpec) -> Lookup<SubstSubtable> {
     Lookup::with_flags(flags, vec![SubstSubtable::Ligature { coverage: Coverage::Glyphs(cov), ligature_sets: sets.into_values().collect() }])
 }
 
-const H_TAGS: &[&[u8; 4]] = &[b"kern", b"curs", b"dist"];
 const HV_TAGS: &[&[u8; 4]] = &[b"mark", b"mkmk", b"abvm", b"blwm"];
 
 /// Assemble a GPOS from (tag, lookup) pairs: one feature record per distinct tag, in first-use order.
@@ -526,7 +537,6 @@ fn gen_font_plain(seed: u64, index: u64) -> (FontSpec, Profile) {
             }
         }
     }
-    let _ = H_TAGS;
     (spec, profile)
 }
 
